@@ -14,7 +14,6 @@ theorem withAdm_of_set (p : Plain) (xs : List V) : WithAdm p (.set xs) := by
   | str s off holes => intro ix c hc; simp [asChar] at hc
   | bytes b off => intro ix c hc; simp [asByte] at hc
   | arr vs off count => intro ix c hc; simp [asItem] at hc
-  | rel names rows => intro as he; cases he
   | _ => trivial
 
 theorem repWithAdm_of_set (r : Rep) (xs : List V) : RepWithAdm r (.set xs) := by
@@ -35,7 +34,6 @@ theorem withAdm_of_num (p : Plain) (n : Int) : WithAdm p (.num n) := by
   | str s off holes => intro ix c hc; simp [asChar] at hc
   | bytes b off => intro ix c hc; simp [asByte] at hc
   | arr vs off count => intro ix c hc; simp [asItem] at hc
-  | rel names rows => intro as he; cases he
   | _ => trivial
 
 def NonTuple (v : V) : Prop := (∃ n, v = .num n) ∨ (∃ xs, v = .set xs)
